@@ -27,9 +27,17 @@ const (
 // are explored), optionally a receipt of x, ends the suspension, and then lets time pass in steps of
 // the arrive timeout (armed timers fire).  Suspend() is symbolic while the announcements arrive, each
 // item is symbolically interesting or not.
-func verifC16(nBatches int, steps int) {
+func verifC16(nBatches int, steps int) { verifC16x(nBatches, steps, false) }
+
+// with changes: the interest in x and y changes (symbolically) after the first requests went out, a few timer
+// rounds pass, it changes again, a second batch is announced, and time passes again.
+func verifC16x(nBatches int, steps int, changes bool) {
 	cfg := Config{ForgetTimeout: vForget, ArriveTimeout: vArrive, GatherSlack: 2 * time.Millisecond, HashLimit: 64, MaxBatch: 8, MaxParallelRequests: 1, MaxQueuedBatches: 8}
 	suspended := sym.Bool("suspendedDuringAnnounce")
+	if changes {
+		suspended = false
+		sym.RandExtremes(true)
+	}
 	interested := map[string]bool{"x": sym.Bool("interestedX"), "y": sym.Bool("interestedY")}
 	everInterested := map[string]bool{}
 	f := New(cfg, Callback{
@@ -46,6 +54,9 @@ func verifC16(nBatches int, steps int) {
 		Suspend: func() bool { return suspended },
 	})
 	var requests []vRequest
+	ticksSinceLost := map[string]int{}
+	pending := map[string]bool{} // announced while interesting, interesting ever since, not received
+	since := map[string]int{}    // number of requests made before it became pending
 	announcedBy := map[string]map[string]bool{"p": {}, "q": {}}
 	received := map[string]bool{}
 	requestedAfterReceipt := false
@@ -60,6 +71,7 @@ func verifC16(nBatches int, steps int) {
 				if received[s] {
 					requestedAfterReceipt = true
 				}
+				sym.Assert(interested[s] || ticksSinceLost[s] < 2, "an item that is no longer interesting is not requested any more after two timer rounds")
 			}
 			requests = append(requests, r)
 			return nil
@@ -70,17 +82,28 @@ func verifC16(nBatches int, steps int) {
 	items := [...][]interface{}{{"x"}, {"y"}, {"x", "y"}}
 	peers := [...]string{"p", "q"}
 	announce := func(i int) {
-		peer := peers[sym.Choice(vnPeer[i], 2)]
+		peer := peers[i%2] // with changes: batch 0 from p, batch 1 from q
+		if !changes {
+			peer = peers[sym.Choice(vnPeer[i], 2)]
+		}
 		ids := items[sym.Choice(vnItems[i], 3)]
 		for _, id := range ids {
 			announcedBy[peer][id.(string)] = true
 			if received[id.(string)] {
 				received[id.(string)] = false // announced anew
 			}
+			if interested[id.(string)] && !pending[id.(string)] {
+				pending[id.(string)] = true
+				since[id.(string)] = len(requests)
+			}
 		}
-		sym.Assert(f.NotifyAnnounces(peer, ids, time.Unix(0, now), requester(peer)) == nil, "announce accepted")
+		at := time.Unix(0, now)
+		if !sym.Symbolic() {
+			at = time.Now() // natively the real clock runs
+		}
+		sym.Assert(f.NotifyAnnounces(peer, ids, at, requester(peer)) == nil, "announce accepted")
 	}
-	withReceipt := sym.Choice("receipt", 2) == 1
+	withReceipt := !changes && sym.Choice("receipt", 2) == 1
 	// the environment's script, one action per step
 	step := 0
 	inWorker := false
@@ -90,9 +113,49 @@ func verifC16(nBatches int, steps int) {
 		sym.RunGo(sym.NumGo() - 1)
 		inWorker = false
 	}
+	change := func(tag string) {
+		for _, id := range []string{"x", "y"} {
+			was := interested[id]
+			interested[id] = sym.Bool("interested" + tag + id)
+			if was && !interested[id] {
+				ticksSinceLost[id] = 0
+				pending[id] = false
+				sym.Reach("interest-lost")
+			}
+		}
+	}
+	tick := func() {
+		now += int64(vArrive) + int64(time.Millisecond)
+		sym.SetNow(now)
+		sym.FireTimers()
+		for id := range ticksSinceLost {
+			ticksSinceLost[id]++
+		}
+	}
+	script := []string{}
+	if changes {
+		// first requests, interest changes, two timer rounds, interest changes again, a new batch, timer rounds
+		script = []string{"tick", "change1", "tick", "tick", "change2", "announce", "tick", "tick"}
+	}
 	act := func() bool {
 		k := step
 		step++
+		if changes {
+			if k >= len(script) {
+				return false
+			}
+			switch script[k] {
+			case "tick":
+				tick()
+			case "change1":
+				change("1")
+			case "change2":
+				change("2")
+			case "announce":
+				announce(1)
+			}
+			return true
+		}
 		switch {
 		case k < nBatches-1:
 			announce(k + 1)
@@ -100,14 +163,13 @@ func verifC16(nBatches int, steps int) {
 			if withReceipt {
 				sym.Assert(f.NotifyReceived([]interface{}{"x"}) == nil, "receipt accepted")
 				received["x"] = true
+				pending["x"] = false
 				sym.Reach("receipt")
 			}
 		case k == nBatches:
 			suspended = false // the suspension (if any) ends
 		case k <= nBatches+steps:
-			now += int64(vArrive) + int64(time.Millisecond)
-			sym.SetNow(now)
-			sym.FireTimers()
+			tick()
 		default:
 			return false // nothing will ever happen any more
 		}
@@ -140,9 +202,9 @@ func verifC16(nBatches int, steps int) {
 	// liveness within the bounded wait: an announced item that stayed interesting and unreceived was requested
 	if !sym.Known("C16-suspended-batch-never-fetched") {
 		for _, id := range []string{"x", "y"} {
-			if (announcedBy["p"][id] || announcedBy["q"][id]) && interested[id] && !received[id] {
+			if pending[id] {
 				got := false
-				for _, r := range requests {
+				for _, r := range requests[since[id]:] {
 					for _, x := range r.ids {
 						got = got || x == id
 					}
@@ -159,5 +221,6 @@ func verifC16(nBatches int, steps int) {
 
 func announcedAgain(map[string]map[string]bool) bool { return false }
 
-func VerifH_C16_one() { verifC16(1, 3) }
-func VerifH_C16_two() { verifC16(2, 3) }
+func VerifH_C16_one()     { verifC16(1, 3) }
+func VerifH_C16_two()     { verifC16(2, 3) }
+func VerifH_C16_changes() { verifC16x(2, 3, true) }
